@@ -6,6 +6,7 @@ from . import runner
 PROPS = {
     'C01': 'rsym.props.c01',
     'C03': 'rsym.props.c03',
+    'C04': 'rsym.props.c04',
     'C06': 'rsym.props.c06',
     'C14': 'rsym.props.c14',
     'C15': 'rsym.props.c15',
